@@ -8,6 +8,9 @@ HERE = os.path.dirname(os.path.dirname(os.path.abspath(__file__)))
 sys.path.insert(0, HERE)
 from parsolint.props import REGISTRY          # noqa: E402
 from parsolint.props.meta import META         # noqa: E402
+from parsolint.props import meta as _meta     # noqa: E402
+ADDENDA = getattr(_meta, 'ADDENDA', {})
+TECH = getattr(_meta, 'TECH_ADDENDA', {})
 
 ALL = ['C%02d' % i for i in range(1, 21)]
 
@@ -44,9 +47,9 @@ for pid in ALL:
             'evidence_file': 'evidence/%s.json' % pid,
             'replay_cmd_template': './check %s --replay {path}' % pid,
             'engine': 'parsolint',
-            'level_claimed': {'category': 'other', 'text': m['level'], 'design_ref': 'DESIGN.md section 2, %s' % pid},
+            'level_claimed': {'category': 'other', 'text': m['level'] + ADDENDA.get(pid, ''), 'design_ref': 'DESIGN.md section 2, %s' % pid},
             'level_note': m['note'],
-            'technique': m['technique'],
+            'technique': m['technique'] + TECH.get(pid, ''),
         })
     else:
         manifest['not_applicable'].append({
